@@ -50,7 +50,7 @@ fn main() {
   let t0 = std::time::Instant::now();
   match replay {
     Some(line) => { let c = Case::parse(&line); (m.replay)(&mut ctx, &c); }
-    None => (m.run)(&mut ctx, &mut extra),
+    None => { let run = m.run; util::run_guarded(&mut ctx, |c| run(c, &mut extra)); }
   }
   let wall = t0.elapsed().as_secs_f64();
   let js = ctx.to_json(m.rule, m.assumptions, wall, &extra);
